@@ -72,7 +72,7 @@ def handle : List String → String
     | some limit, some (framing, len), some mt, some script, some ops =>
       let c := Codec.scripted script
       let w : World c := World.init c limit framing len (parseBool comp) (parseBool sniff) (parseBool chk)
-        (parseBool lax) mt Gen.C09.needsInputClearsPause Gen.C09.waitRechecksException
+        (parseBool lax) mt Gen.C09.needsInputClearsPause Gen.C09.waitRechecksException Gen.C09.waitChecksExceptionAtEntry
       let rs := runOuts w ops
       let items := rs.map (fun (r : World c × Out) => showOut r.2 ++ "/" ++ showState r.1)
       let wf := (rs.getLast?.map (·.1)).getD w
